@@ -20,16 +20,16 @@
 //!      per-segment time constants), and bit-exact traces through such histories (C14.Run.CHist).
 use crate::util::*;
 use kira::effect::compressor::CompressorBuilder;
-use kira::effect::delay::DelayBuilder;
-use kira::effect::distortion::{DistortionBuilder, DistortionKind};
-use kira::effect::eq_filter::{EqFilterBuilder, EqFilterKind};
-use kira::effect::filter::{FilterBuilder, FilterMode};
-use kira::effect::panning_control::PanningControlBuilder;
+use kira::effect::delay::{DelayBuilder, DelayHandle};
+use kira::effect::distortion::{DistortionBuilder, DistortionHandle, DistortionKind};
+use kira::effect::eq_filter::{EqFilterBuilder, EqFilterHandle, EqFilterKind};
+use kira::effect::filter::{FilterBuilder, FilterHandle, FilterMode};
+use kira::effect::panning_control::{PanningControlBuilder, PanningControlHandle};
 use kira::effect::reverb::ReverbBuilder;
-use kira::effect::volume_control::VolumeControlBuilder;
+use kira::effect::volume_control::{VolumeControlBuilder, VolumeControlHandle};
 use kira::effect::{Effect, EffectBuilder};
 use kira::info::{Info, MockInfoBuilder};
-use kira::{Frame, Panning, Value};
+use kira::{Frame, Panning, Tween, Value};
 use kira::track::TrackBuilder;
 use std::collections::BTreeSet;
 use std::sync::{Arc, Mutex};
@@ -638,6 +638,457 @@ fn sec_delay_fx(s: &mut Session, cx: &Ctx, rng: &mut Rng, n: usize) {
 }
 fn j_first_nonzero(v: &[Frame]) -> usize {
 	v.iter().position(|f| f.left != 0.0 || f.right != 0.0).unwrap_or(v.len())
+}
+
+// ------------------------------------------------------------------ feedback effects driven through their handles
+// "... each attenuated once more by the feedback gain and shaped by the feedback effects": the effects in the
+// loop are the ones the user holds handles to (`DelayBuilder::add_feedback_effect`), so the shaping that counts is
+// the one configured THROUGH THE HANDLE at the time the echo goes round, not the one given to the builder.
+// Scene: delay with loop effects built at settings A; some idle callbacks; every loop effect is set to settings B
+// through its handle (instant / default / random tween), optionally the delay's own feedback too; silence until
+// every tween has ended; then a burst.  The echoes must be g_B^k FX_B^k(burst) at k * delay frames, where FX_B
+// is the REAL effect built at B and run on its own (fresh instance per pass).  Bare effect and real sub-track.
+
+enum FxHandle {
+	Vol(VolumeControlHandle),
+	Pan(PanningControlHandle),
+	Dist(DistortionHandle),
+	Filter(FilterHandle),
+	Eq(EqFilterHandle),
+}
+fn filter_mode_of(m: u8) -> FilterMode {
+	match m {
+		0 => FilterMode::LowPass,
+		1 => FilterMode::BandPass,
+		2 => FilterMode::HighPass,
+		_ => FilterMode::Notch,
+	}
+}
+fn eq_kind_of(k: u8) -> EqFilterKind {
+	match k {
+		0 => EqFilterKind::Bell,
+		1 => EqFilterKind::LowShelf,
+		_ => EqFilterKind::HighShelf,
+	}
+}
+fn dist_kind_of(hard: bool) -> DistortionKind {
+	if hard {
+		DistortionKind::HardClip
+	} else {
+		DistortionKind::SoftClip
+	}
+}
+fn build_delay_with_handles(time: Duration, fb: f32, mix: f32, fx: &[Desc]) -> (Box<dyn Effect>, DelayHandle, Vec<FxHandle>) {
+	let mut b = DelayBuilder::new().delay_time(time).feedback(fb).mix(mix);
+	let mut hs = vec![];
+	for d in fx {
+		hs.push(match d {
+			Vol(db) => FxHandle::Vol(b.add_feedback_effect(VolumeControlBuilder::new(*db))),
+			Pan(p) => FxHandle::Pan(b.add_feedback_effect(PanningControlBuilder(Value::Fixed(Panning(*p))))),
+			Dist { hard, db, mix } => FxHandle::Dist(b.add_feedback_effect(DistortionBuilder::new().kind(dist_kind_of(*hard)).drive(*db).mix(*mix))),
+			Filter { mode, cutoff, res, mix } => FxHandle::Filter(b.add_feedback_effect(FilterBuilder::new().mode(filter_mode_of(*mode)).cutoff(*cutoff).resonance(*res).mix(*mix))),
+			Eq { kind, freq, gain, q } => FxHandle::Eq(b.add_feedback_effect(EqFilterBuilder::new(eq_kind_of(*kind), *freq, *gain, *q))),
+			_ => panic!("harness: no handle scene for {:?}", d),
+		});
+	}
+	let (e, h) = b.build();
+	(e, h, hs)
+}
+/// every setting of `to` written through the handle
+fn apply_handle(h: &mut FxHandle, to: &Desc, tween: Tween) {
+	match (h, to) {
+		(FxHandle::Vol(h), Vol(db)) => h.set_volume(*db, tween),
+		(FxHandle::Pan(h), Pan(p)) => h.set_panning(Value::Fixed(Panning(*p)), tween),
+		(FxHandle::Dist(h), Dist { hard, db, mix }) => {
+			h.set_kind(dist_kind_of(*hard));
+			h.set_drive(*db, tween);
+			h.set_mix(*mix, tween);
+		}
+		(FxHandle::Filter(h), Filter { mode, cutoff, res, mix }) => {
+			h.set_mode(filter_mode_of(*mode));
+			h.set_cutoff(*cutoff, tween);
+			h.set_resonance(*res, tween);
+			h.set_mix(*mix, tween);
+		}
+		(FxHandle::Eq(h), Eq { kind, freq, gain, q }) => {
+			h.set_kind(eq_kind_of(*kind));
+			h.set_frequency(*freq, tween);
+			h.set_gain(*gain, tween);
+			h.set_q(*q, tween);
+		}
+		_ => panic!("harness: handle / description mismatch"),
+	}
+}
+
+#[derive(Clone, Debug)]
+struct HScene {
+	sr: u32,
+	/// internal buffer size
+	t: usize,
+	on_track: bool,
+	time: Duration,
+	fb: f32,
+	/// the delay's own feedback, set through the DelayHandle at the same moment
+	fb_after: Option<f32>,
+	before: Vec<Desc>,
+	after: Vec<Desc>,
+	tween_dur: Duration,
+	/// device callbacks (frames); the handles are used just before callback `set_at`
+	calls: Vec<usize>,
+	set_at: usize,
+	/// frame at which the burst starts (a callback boundary, after every tween has ended)
+	burst_at: usize,
+	burst: Vec<Frame>,
+}
+impl HScene {
+	fn total(&self) -> usize {
+		self.calls.iter().sum()
+	}
+	fn signal(&self) -> Vec<Frame> {
+		let mut v = vec![Frame::ZERO; self.total()];
+		v[self.burst_at..self.burst_at + self.burst.len()].copy_from_slice(&self.burst);
+		v
+	}
+	fn text(&self) -> String {
+		format!(
+			"delay (delay_time {} ns = {} frames @ {} Hz, feedback {} dB, wet) with feedback effects {:?} added by add_feedback_effect; {}; internal buffer {}; callbacks {:?}; just before callback #{} every feedback effect is set through its handle to {:?}{} (tween {} ns, immediate start); input: silence, then from frame {} (callback boundary, {} frames after the tweens ended) the burst {:?}",
+			self.time.as_nanos(),
+			exact_frames(self.time, self.sr),
+			self.sr,
+			self.fb,
+			self.before,
+			if self.on_track { "on a sub-track of a real AudioManager (injector + tap effects around it)" } else { "bare effect: init, then per callback on_start_processing + process in slices of the internal buffer" },
+			self.t,
+			self.calls,
+			self.set_at,
+			self.after,
+			match self.fb_after {
+				Some(f) => format!(" and the delay's feedback to {} dB through the DelayHandle", f),
+				None => String::new(),
+			},
+			self.tween_dur.as_nanos(),
+			self.burst_at,
+			self.burst_at - self.calls[..self.set_at].iter().sum::<usize>() - (self.tween_dur.as_secs_f64() * self.sr as f64).ceil() as usize,
+			self.burst.iter().map(|f| (f.left, f.right)).collect::<Vec<_>>(),
+		)
+	}
+}
+fn run_hscene(cx: &Ctx, sc: &HScene) -> Outcome<Vec<Frame>> {
+	catch(|| {
+		let tween = Tween { duration: sc.tween_dur, ..Default::default() };
+		let (mut e, mut dh, mut hs) = build_delay_with_handles(sc.time, sc.fb, 1.0, &sc.before);
+		let signal = sc.signal();
+		let set_all = |dh: &mut DelayHandle, hs: &mut Vec<FxHandle>| {
+			for (h, to) in hs.iter_mut().zip(&sc.after) {
+				apply_handle(h, to, tween);
+			}
+			if let Some(f) = sc.fb_after {
+				dh.set_feedback(f, tween);
+			}
+		};
+		if !sc.on_track {
+			e.init(sc.sr, sc.t);
+			let dt = 1.0 / sc.sr as f64;
+			let mut buf = signal;
+			let mut pos = 0;
+			for (ci, &n) in sc.calls.iter().enumerate() {
+				if ci == sc.set_at {
+					set_all(&mut dh, &mut hs);
+				}
+				e.on_start_processing();
+				for chunk in buf[pos..pos + n].chunks_mut(sc.t) {
+					e.process(chunk, dt, &cx.info);
+				}
+				pos += n;
+			}
+			buf
+		} else {
+			let log = Arc::new(Mutex::new(vec![]));
+			let calls = Arc::new(Mutex::new(vec![]));
+			let mut m = crate::backend::simple_manager(sc.sr, sc.t);
+			let builder = TrackBuilder::new()
+				.with_built_effect(Box::new(Inject { data: Arc::new(signal), pos: 0 }))
+				.with_built_effect(e)
+				.with_built_effect(Box::new(Tap { log: log.clone(), calls: calls.clone() }));
+			let _track = m.add_sub_track(builder).unwrap();
+			for (ci, &n) in sc.calls.iter().enumerate() {
+				if ci == sc.set_at {
+					set_all(&mut dh, &mut hs);
+				}
+				m.backend_mut().callback(n, 2);
+			}
+			let out = log.lock().unwrap().clone();
+			out
+		}
+	})
+}
+/// sum over k = 1..echoes of g^k FX^k(input) delayed by k * dd frames; FX = the real effects built from `fx`, each run on
+/// its own with a fresh instance per pass
+fn echo_reference(cx: &Ctx, fx: &[Desc], sr: u32, input: &[Frame], dd: usize, g: f64, echoes: usize) -> Option<Vec<(f64, f64)>> {
+	let n = input.len();
+	let mut cur = input.to_vec();
+	let mut expect = vec![(0.0f64, 0.0f64); n];
+	for _ in 1..=echoes {
+		for e in fx {
+			match run_effect(cx, e, sr, &cur) {
+				Outcome::Ok(v) => cur = v,
+				_ => return None,
+			}
+		}
+		let mut next = vec![Frame::ZERO; n];
+		for j in 0..n.saturating_sub(dd) {
+			next[j + dd] = Frame::new((cur[j].left as f64 * g) as f32, (cur[j].right as f64 * g) as f32);
+		}
+		cur = next;
+		for j in 0..n {
+			expect[j].0 += cur[j].left as f64;
+			expect[j].1 += cur[j].right as f64;
+		}
+	}
+	Some(expect)
+}
+const H_ECHOES: usize = 4;
+/// callbacks for a scene: `pre` idle callbacks, [handles used], silence for the tween + 3 internal buffers, then the tail
+fn hscene_calls(rng: Option<&mut Rng>, sr: u32, t: usize, pre: usize, tween_dur: Duration, tail: usize) -> (Vec<usize>, usize, usize) {
+	let sizes = [t, 64, 2 * t, t + t / 2 + 1, 7, 4 * t];
+	let mut k = 0usize;
+	let mut rng = rng;
+	let mut next = |left: Option<usize>| -> usize {
+		let c = match rng.as_deref_mut() {
+			Some(r) => *r.pick(&sizes),
+			None => {
+				k += 1;
+				64
+			}
+		};
+		match left {
+			Some(l) => c.min(l),
+			None => c,
+		}
+	};
+	let mut calls = vec![];
+	for _ in 0..pre {
+		calls.push(next(None));
+	}
+	let set_at = calls.len();
+	let settle = (tween_dur.as_secs_f64() * sr as f64).ceil() as usize + 3 * t + 1;
+	let mut got = 0;
+	while got < settle {
+		let c = next(None);
+		calls.push(c);
+		got += c;
+	}
+	let burst_at = calls.iter().sum();
+	let mut left = tail;
+	while left > 0 {
+		let c = next(Some(left));
+		calls.push(c);
+		left -= c;
+	}
+	let _ = k;
+	(calls, set_at, burst_at)
+}
+/// runs the scene and evaluates the clause; returns the part of the output from the burst on
+fn check_hscene(s: &mut Session, cx: &Ctx, sc: &HScene, kind: &str) -> Option<Vec<Frame>> {
+	let desc = sc.text();
+	let dd = exact_frames(sc.time, sc.sr);
+	let out = match run_hscene(cx, sc) {
+		Outcome::Ok(v) => v,
+		_ => {
+			s.fail(desc, format!("scene panicked: {}", last_panic()), None);
+			return None;
+		}
+	};
+	if out.len() != sc.total() {
+		s.fail(desc, format!("track scene did not run as planned: {} frames tapped, planned {} (harness problem)", out.len(), sc.total()), None);
+		return None;
+	}
+	s.eval_only(kind);
+	if let Some(j) = out[..sc.burst_at].iter().position(|f| f.left != 0.0 || f.right != 0.0) {
+		s.fail(desc, format!("frame {j}: output ({}, {}) although only silence has been fed so far", out[j].left, out[j].right), None);
+		return None;
+	}
+	let tail = &out[sc.burst_at..];
+	let input = &sc.signal()[sc.burst_at..];
+	let g = amp64(sc.fb_after.unwrap_or(sc.fb));
+	// every echo that starts inside the observed tail
+	let echoes = (tail.len() - 1) / dd;
+	let expect = echo_reference(cx, &sc.after, sc.sr, input, dd, g, echoes)?;
+	let stale = echo_reference(cx, &sc.before, sc.sr, input, dd, amp64(sc.fb), echoes);
+	let peak = expect.iter().map(|p| p.0.abs().max(p.1.abs())).fold(1e-9, f64::max);
+	for j in 0..tail.len() {
+		let (el, er) = ((tail[j].left as f64 - expect[j].0).abs(), (tail[j].right as f64 - expect[j].1).abs());
+		if !(el <= 1e-4 * peak && er <= 1e-4 * peak) {
+			let hint = match &stale {
+				Some(st) if (tail[j].left as f64 - st[j].0).abs() <= 1e-4 * peak && (tail[j].right as f64 - st[j].1).abs() <= 1e-4 * peak => {
+					" -- the output equals what the settings given to the BUILDERS would produce: what was written through the handles never reached the effects in the loop"
+				}
+				_ => "",
+			};
+			s.fail(
+				desc,
+				format!(
+					"frame {} after the burst (delay period {}): wet output ({}, {}), but the sum of the echoes g^k FX^k(burst) delayed by k*{dd} frames, with FX / g as configured through the handles, is ({:.8}, {:.8}) (peak {peak:.4}){hint}",
+					j,
+					j / dd,
+					tail[j].left,
+					tail[j].right,
+					expect[j].0,
+					expect[j].1
+				),
+				None,
+			);
+			return None;
+		}
+	}
+	Some(tail.to_vec())
+}
+fn fixed_burst() -> Vec<Frame> {
+	vec![
+		Frame::new(1.0, -0.5),
+		Frame::new(-0.75, 0.25),
+		Frame::new(0.5, 0.875),
+		Frame::new(0.9, -0.9),
+		Frame::new(-0.3, 0.6),
+		Frame::new(0.0, -1.0),
+		Frame::new(0.45, 0.1),
+		Frame::new(-0.95, 0.7),
+	]
+}
+/// directed scenes, the same on every run (no PRNG): one per kind of loop effect, bare and on a real track
+fn sec_delay_fx_handles_fixed(s: &mut Session, cx: &Ctx) {
+	let sr = 48000u32;
+	let dd = 100usize;
+	let time = Duration::from_nanos((dd as u64 * 1_000_000_000 + 250_000_000) / sr as u64 + 1);
+	let zero = Duration::ZERO;
+	let dflt = Tween::default().duration;
+	let scenes: Vec<(f32, Option<f32>, Vec<Desc>, Vec<Desc>, Duration, usize, Vec<Frame>)> = vec![
+		// the seeded demo: 0 dB volume control in the loop set to -6 dB, feedback 0 dB, unit impulse
+		(0.0, None, vec![Vol(0.0)], vec![Vol(-6.0)], zero, 3, vec![Frame::new(1.0, 1.0)]),
+		(0.0, None, vec![Vol(0.0)], vec![Vol(-6.0)], zero, 0, vec![Frame::new(1.0, 1.0)]),
+		(-3.0, None, vec![Vol(-12.0)], vec![Vol(3.0)], dflt, 2, fixed_burst()),
+		(-3.0, None, vec![Filter { mode: 0, cutoff: 8000.0, res: 0.1, mix: 1.0 }], vec![Filter { mode: 0, cutoff: 500.0, res: 0.1, mix: 1.0 }], zero, 3, fixed_burst()),
+		(-3.0, None, vec![Filter { mode: 0, cutoff: 2000.0, res: 0.2, mix: 1.0 }], vec![Filter { mode: 2, cutoff: 2000.0, res: 0.2, mix: 1.0 }], zero, 1, fixed_burst()),
+		(-2.0, None, vec![Filter { mode: 0, cutoff: 1000.0, res: 0.0, mix: 1.0 }], vec![Filter { mode: 0, cutoff: 1000.0, res: 0.8, mix: 0.5 }], dflt, 2, fixed_burst()),
+		(-3.0, None, vec![Eq { kind: 0, freq: 1000.0, gain: 6.0, q: 1.0 }], vec![Eq { kind: 0, freq: 1000.0, gain: -6.0, q: 1.0 }], zero, 3, fixed_burst()),
+		(-3.0, None, vec![Eq { kind: 0, freq: 1000.0, gain: 9.0, q: 1.0 }], vec![Eq { kind: 1, freq: 3000.0, gain: 9.0, q: 0.7 }], dflt, 2, fixed_burst()),
+		(-1.0, None, vec![Dist { hard: true, db: 0.0, mix: 1.0 }], vec![Dist { hard: false, db: 12.0, mix: 1.0 }], zero, 3, fixed_burst()),
+		(-4.0, None, vec![Pan(0.0)], vec![Pan(0.8)], zero, 3, fixed_burst()),
+		(-3.0, Some(-9.0), vec![Vol(-3.0), Filter { mode: 0, cutoff: 6000.0, res: 0.1, mix: 1.0 }], vec![Vol(1.0), Filter { mode: 1, cutoff: 900.0, res: 0.3, mix: 1.0 }], dflt, 2, fixed_burst()),
+	];
+	for (fb, fb_after, before, after, tween_dur, pre, burst) in scenes {
+		for on_track in [false, true] {
+			let t = if on_track { 128 } else { 256 };
+			let (calls, set_at, burst_at) = hscene_calls(None, sr, t, pre, tween_dur, dd * (H_ECHOES + 1));
+			let sc = HScene { sr, t, on_track, time, fb, fb_after, before: before.clone(), after: after.clone(), tween_dur, calls, set_at, burst_at, burst: burst.clone() };
+			check_hscene(s, cx, &sc, "mon_delay_feedback_effects_follow_handles_fixed");
+		}
+	}
+	// small scenes whose tail is also a model case: from the burst on, the delay must be bit for bit the C13 model of a
+	// delay BUILT with the settings written through the handles (C14.Run.CTrace)
+	for (i, (before, after)) in [
+		(vec![Vol(0.0)], vec![Vol(-6.0)]),
+		(vec![Filter { mode: 0, cutoff: 9000.0, res: 0.2, mix: 1.0 }], vec![Filter { mode: 0, cutoff: 700.0, res: 0.2, mix: 1.0 }]),
+		(vec![Filter { mode: 0, cutoff: 1500.0, res: 0.2, mix: 1.0 }, Vol(-2.0)], vec![Filter { mode: 2, cutoff: 1500.0, res: 0.2, mix: 1.0 }, Vol(-5.0)]),
+	]
+	.into_iter()
+	.enumerate()
+	{
+		let dd = 2 + i;
+		let time = Duration::from_nanos((dd as u64 * 1_000_000_000 + 250_000_000) / sr as u64 + 1);
+		let (calls, set_at, burst_at) = hscene_calls(None, sr, T, 2, zero, 16);
+		let sc = HScene { sr, t: T, on_track: false, time, fb: -3.0, fb_after: None, before, after: after.clone(), tween_dur: zero, calls, set_at, burst_at, burst: fixed_burst() };
+		if let Some(tail) = check_hscene(s, cx, &sc, "mon_delay_feedback_effects_follow_handles_fixed") {
+			emit_trace_observed(s, "trace_delay_fx_after_handles", &Delay { time, fb: -3.0, mix: 1.0, fx: after }, sr, &sc.signal()[sc.burst_at..], &tail);
+		}
+	}
+}
+/// a C13-model trace case whose observed side was produced elsewhere (one process call of at most T frames)
+fn emit_trace_observed(s: &mut Session, kind: &str, d: &Desc, sr: u32, input: &[Frame], out: &[Frame]) {
+	let mut obs = vec![0];
+	for f in out {
+		obs.push(obs32(f.left));
+		obs.push(obs32(f.right));
+	}
+	let mut tab = Tab::new();
+	d.oracle(sr, &mut tab);
+	let tabs = format!("[{}]", tab.iter().map(|(t, a, b)| format!("({}, {}, {})", t, z(*a), z(*b))).collect::<Vec<_>>().join("; "));
+	let term = format!("CTrace (Case {} {} {} {} [] {})", sr, T, tabs, d.term(), frames_term(input));
+	let k = key_of(&term);
+	s.case(kind, term, &obs, k);
+}
+fn gen_loop_fx(r: &mut Rng, sr: u32, which: u64) -> (Desc, Desc) {
+	let fcut = |r: &mut Rng| (200.0 * (40.0f64).powf(r.unit_f64())).min(sr as f64 * 0.4);
+	match which {
+		0 => {
+			let a = (-12.0 + r.unit_f64() * 14.0) as f32;
+			let step = (3.0 + r.unit_f64() * 9.0) as f32;
+			(Vol(a), Vol(if a > -5.0 { a - step } else { a + step }))
+		}
+		1 => {
+			let a = unit32(r);
+			(Pan(a), Pan(if a > 0.0 { a - 0.7 } else { a + 0.7 }))
+		}
+		2 => {
+			let hard = r.chance(1, 2);
+			let db = (r.unit_f64() * 12.0) as f32;
+			if r.chance(1, 2) {
+				(Dist { hard, db, mix: 1.0 }, Dist { hard: !hard, db: db + 6.0, mix: 1.0 })
+			} else {
+				(Dist { hard, db, mix: 1.0 }, Dist { hard, db: db + 12.0, mix: r.unit_f64() as f32 })
+			}
+		}
+		3 => {
+			let mode = r.below(4) as u8;
+			let (c0, res) = (fcut(r), r.unit_f64() * 0.8);
+			match r.below(3) {
+				0 => (Filter { mode, cutoff: c0, res, mix: 1.0 }, Filter { mode: (mode + 1 + r.below(3) as u8) % 4, cutoff: c0, res, mix: 1.0 }),
+				1 => (Filter { mode, cutoff: c0, res, mix: 1.0 }, Filter { mode, cutoff: if c0 > 1200.0 { c0 / 4.0 } else { (c0 * 4.0).min(sr as f64 * 0.45) }, res, mix: 1.0 }),
+				_ => (Filter { mode, cutoff: c0, res, mix: 1.0 }, Filter { mode: r.below(4) as u8, cutoff: fcut(r), res: r.unit_f64() * 0.8, mix: (0.3 + 0.7 * r.unit_f64()) as f32 }),
+			}
+		}
+		_ => {
+			let kind = r.below(3) as u8;
+			let (f0, gain, q) = (fcut(r), (-15.0 + r.unit_f64() * 30.0) as f32, 0.4 + r.unit_f64() * 3.0);
+			match r.below(3) {
+				0 => (Eq { kind, freq: f0, gain, q }, Eq { kind, freq: f0, gain: if gain > 0.0 { gain - 12.0 } else { gain + 12.0 }, q }),
+				1 => (Eq { kind, freq: f0, gain: gain.abs() + 4.0, q }, Eq { kind: (kind + 1) % 3, freq: f0, gain: gain.abs() + 4.0, q }),
+				_ => (Eq { kind, freq: f0, gain, q }, Eq { kind: r.below(3) as u8, freq: fcut(r), gain: (-15.0 + r.unit_f64() * 30.0) as f32, q: 0.4 + r.unit_f64() * 3.0 }),
+			}
+		}
+	}
+}
+fn sec_delay_fx_handles(s: &mut Session, cx: &Ctx, rng: &mut Rng, n: usize) {
+	for i in 0..n {
+		let sr = gen_sr(rng);
+		let dd = rng.range(40, 600) as usize;
+		let time = Duration::from_nanos((dd as u64 * 1_000_000_000 + 250_000_000) / sr as u64 + 1);
+		if exact_frames(time, sr) != dd {
+			continue;
+		}
+		let fb = (-12.0 + rng.unit_f64() * 11.0) as f32;
+		let fb_after = if rng.chance(1, 4) { Some((-12.0 + rng.unit_f64() * 11.0) as f32) } else { None };
+		let n_fx = if rng.chance(1, 3) { 2 } else { 1 };
+		let (mut before, mut after) = (vec![], vec![]);
+		for j in 0..n_fx {
+			let which = if j == 0 { (i % 5) as u64 } else { rng.below(5) };
+			let (a, b) = gen_loop_fx(rng, sr, which);
+			before.push(a);
+			after.push(b);
+		}
+		let tween_dur = match rng.below(3) {
+			0 => Duration::ZERO,
+			1 => Tween::default().duration,
+			_ => Duration::from_micros(rng.range(1, 5000) as u64),
+		};
+		let t = *rng.pick(&[64usize, 128, 256]);
+		let on_track = i % 3 == 1;
+		let pre = rng.below(4) as usize;
+		let (calls, set_at, burst_at) = hscene_calls(Some(rng), sr, t, pre, tween_dur, dd * (H_ECHOES + 1));
+		let burst: Vec<Frame> = if rng.chance(1, 4) { vec![Frame::new(1.0, -0.5)] } else { noise(rng, 8, 1.0) };
+		let sc = HScene { sr, t, on_track, time, fb, fb_after, before, after, tween_dur, calls, set_at, burst_at, burst };
+		check_hscene(s, cx, &sc, "mon_delay_feedback_effects_follow_handles");
+	}
 }
 
 // ------------------------------------------------------------------ sample traces against the C13 effect models
@@ -2212,6 +2663,11 @@ pub fn run(args: &Args) {
 		"one evaluation = one built-in effect built by its public builder at one sample rate (or through a history: device-rate change on the live effect, gaps of exact zeros; bare or on a sub-track of a real AudioManager) and parameter setting, driven with a probe signal (impulse, sine pair, piecewise-constant level, noise) and compared with the textbook specification of its transfer behaviour; model cases = specification evaluated in binary32 by coqc (bit-exact) or C13 model traces (also across on_change_sample_rate); distinct = distinct (effect, parameters, rate(s), input)",
 	);
 	let cx = Ctx { info: MockInfoBuilder::new().build() };
+	// directed scenes first, the same on every run; the seeded region around them has a PRNG of its own (derived from
+	// args.seed) so that the streams of the older sections stay what they were
+	sec_delay_fx_handles_fixed(&mut s, &cx);
+	let mut rng_h = Rng::new(args.seed ^ 0xC14_F0B);
+	sec_delay_fx_handles(&mut s, &cx, &mut rng_h, 60 * big);
 	sec_volume(&mut s, &cx, &mut rng, 80 * big);
 	sec_panning(&mut s, &cx, &mut rng, 80 * big);
 	sec_distortion(&mut s, &cx, &mut rng, 100 * big);
